@@ -74,14 +74,8 @@ fn main() {
                     if w.write() != s { return Err("writer does not echo the digits family".to_string()) }
                     return Ok(1)
                 }
-                let g = b.build().map_err(|e| format!("build: {:?}", e))?;
-                let atoms = g.len();
-                let mut w = purr::write::Writer::new();
-                purr::walk::walk(g, &mut w).map_err(|e| format!("walk: {:?}", e))?;
-                let out = w.write();
-                let mut w2 = purr::write::Writer::new();
-                purr::read::read(&out, &mut w2, None).map_err(|e| format!("re-read: {:?}", e))?;
-                Ok(atoms)
+                drop(b);
+                oracle::soak_check(&s)
             };
             let s2 = s.clone();
             match run(s) { Ok(a) => println!("main-thread ok atoms={}", a), Err(e) => { println!("main-thread error {}", e); std::process::exit(1) } }
